@@ -620,6 +620,7 @@ func (e *specEnv) object(o types.Object) specVal {
 		}
 		val := v.deref(e.st, addr, ob.Type(), e.g())
 		v.assumeConstStringSet(g, val, e.st, e.g())
+		v.assumeBigIntGlobal(g, val, e.g())
 		return specVal{V: val, T: ob.Type()}
 	}
 	panic(specErr("cannot use %s in a contract", o.Name()))
@@ -1287,6 +1288,18 @@ func (e *specEnv) call(c SCall) specVal {
 			// calls(f): the number of direct calls of f made so far by the function under contract
 			callee := e.resolveFuncRef(c.Args[0])
 			if callee == nil {
+				// calls through a function-typed parameter of the function under contract are counted too
+				if pid, ok := c.Args[0].(SIdent); ok {
+					for _, p := range e.fr.fn.Params {
+						if _, isSig := under(p.Type()).(*types.Signature); isSig && p.Name() == pid.Name {
+							n := tZero
+							if t, ok := e.st.ghost["count#param:"+p.Name()]; ok {
+								n = t
+							}
+							return specVal{V: Sc{n}, T: types.Typ[types.Int]}
+						}
+					}
+				}
 				panic(specErr("calls(): cannot resolve function %v", c.Args[0]))
 			}
 			n := tZero
@@ -1358,7 +1371,7 @@ func (e *specEnv) call(c SCall) specVal {
 					args = append(args, base)
 				} else if kindOf(base.T) == kIface {
 					// interface method: uninterpreted function of the receiver
-					key := typeKey(base.T) + "." + f.Name
+					key := typeKey(types.Unalias(base.T)) + "." + f.Name
 					var avs []Val
 					avs = append(avs, base.V)
 					for _, a := range c.Args {
